@@ -45,6 +45,7 @@ ObsWallet(j) ==
     idx    |-> [a \in DOMAIN j.idx |-> [child |-> j.idx[a].child, log |-> j.idx[a].log, confh |-> j.idx[a].confh]],
     files  |-> [f \in DOMAIN j.files |-> j.files[f]],
     active |-> j.active,
+    labels |-> [a \in {j.idx[x].label : x \in DOMAIN j.idx} |-> CHOOSE x \in DOMAIN j.idx : j.idx[x].label = a],
     scanned |-> j.scanned ]
 Readable(j) == Has(j, "outs")
 ObsWorld(o) ==
@@ -359,6 +360,11 @@ TAccount ==
   /\ LET e == E  w == e.w IN
      /\ Check(\A k \in DOMAIN st.w[w].outs : k \in DOMAIN S2.w[w].outs /\ S2.w[w].outs[k] = st.w[w].outs[k],
               "C04", "AccountOpsTouchNoOutput", e, "")
+     /\ IF ~CheckM THEN TRUE
+        ELSE LET r == IF e.ev = "create_account" THEN CreateAccount(st, w, [label |-> e.label, name |-> e.name])
+                      ELSE SetActive(st, w, [label |-> e.label]) IN
+             /\ CheckMatch((r.res = "ok") = Ok(e), e, "Account:res:" \o r.res)
+             /\ MatchState(LastOr(r.steps, st), e, "Account")
      /\ Step(hv)
 
 \* ---- build_coinbase (foreign API) --------------------------------------------
